@@ -38,7 +38,14 @@ RULE = ('random histories of length 2-40 over 2-4 library objects (incl. two '
         'history.'
         ' Decomposition input forms: SMILES text, a fresh Mol, ONE Mol '
         'object (without / with explicit H) shared by all such steps of a '
-        'history; fresh-process reference computed for the same form. ')
+        'history; fresh-process reference computed for the same form. '
+        ' '
+        'Rounds 18-19: foreign-subsystem steps (network generation, RING'
+        ' reading / matching / rule application, units, yaml_format, group'
+        ' parsing) inside histories; steps run in a worker thread; values'
+        ' read from copies / pickles of estimates; a 45-carbon chain and a'
+        ' 25+26-atom mixture in the pools; clone agreement of every estimate'
+        ' at the end of a history.')
 ASSUMPTIONS = [
     'environment variables are constant within a history (the data-directory '
     'cache is process-wide by design)',
